@@ -14,6 +14,17 @@
        %put and the Command block of a failed nested expansion are released - the model does not
        track allocation, the harness counts blocks).
 
+   The outside world.  %exec(..) and %dirscan(..) ask the world outside the process: what the
+   command prints into the temporary file, and which regular files the directory holds, in the
+   order readdir reports them.  Both answers are parameters of the model (`exec_out`,
+   `dir_list`), like getenv; an answer "not followed" makes the model stop with an event as it
+   does for %random and for backquotes.  What the code does with the answer is modelled: the
+   bounded accumulation loop of builtin_dirscan over its CONFIG_BUFF block (after the repair:
+   a name is taken only if name, blank and terminator fit), the fread / terminator /
+   spiftool_condense_whitespace of builtin_exec.  The temporary-file handling and the assembly
+   of the shell command inside builtin_exec are not modelled (an "exec refused" answer covers
+   the two exits before system()).
+
    Conventions.  `pbuff` is the list of cells from the cursor to the end of the object that
    holds the input, so `*pbuff` is `rdn p 0`, `pbuff++` is `tl p`, and any read beyond the
    object (or of a cell that was never written: the slack behind the terminator, the fresh
@@ -70,6 +81,16 @@ Inductive ext : Set :=
 | Spawn      (* %exec(..) or `..`: system() *)
 | Random     (* %random(..): rand() seeded from pid and time *)
 | Dirscan.   (* %dirscan(..): opendir/readdir/stat *)
+
+(* the answers of the outside world *)
+Inductive dir_answer : Type :=
+| DirNotFollowed                          (* the model stops with the event Dirscan *)
+| DirFail                                 (* opendir() returns NULL *)
+| DirList (names : list (list byte)).     (* the names of the regular files, in readdir order *)
+Inductive exec_answer : Type :=
+| ExecNotFollowed                         (* the model stops with the event Spawn *)
+| ExecRefused                             (* no temporary file, or the command line is too long: NULL *)
+| ExecOut (content : list byte).          (* what the command wrote into the temporary file *)
 
 (* what a built-in hands back: NULL, a malloc'ed string, or an outside event *)
 Inductive bres : Type := BNull | BStr (s : list byte) | BExt (e : ext).
@@ -249,6 +270,29 @@ Definition finish (s nb : buf) (j : Z) : res (option buf) :=
   if negb (j <? config_buff) then Ok None
   else (nb' <- wrz nb j 0 ;; s' <- strcpy_run s nb' ;; Ok (Some s')).
 
+(* strcat(dst, src): walk to the terminator of dst, copy src and its terminator from there *)
+Definition strcat_b (dst : buf) (src : list byte) : res buf :=
+  k <- strlen dst ;;
+  d <- strcpy_run (skipn k dst) (cstr src []) ;;
+  Ok (firstn k dst ++ d).
+
+(* builtin_dirscan, the loop over the directory entries that are regular files (for the others
+   n does not change, so the test `if (n < 2) break;` has nothing new to see):
+     len = strlen(dp->d_name);
+     if (len + 1 < n) { strcat(buff, dp->d_name); strcat(buff, " "); n -= len + 1; }
+     if (n < 2) break;
+   len and n are unsigned long; n never goes below 1, nothing wraps *)
+Fixpoint dirscan_loop (names : list (list byte)) (b : buf) (n : Z) {struct names} : res buf :=
+  match names with
+  | [] => Ok b
+  | nm :: t =>
+    let len := Z.of_nat (length nm) in
+    '(b', n') <- (if len + 1 <? n
+                  then (b1 <- strcat_b b nm ;; b2 <- strcat_b b1 [32] ;; Ok (b2, n - (len + 1)))
+                  else Ok (b, n)) ;;
+    if n' <? 2 then Ok b' else dirscan_loop t b' n'
+  end.
+
 (* ---------------------------------------------------------------------------------- *)
 (* built-ins                                                                            *)
 (* ---------------------------------------------------------------------------------- *)
@@ -256,6 +300,9 @@ Section Expand.
 (* getenv as a function of the name; libast_program_name / libast_program_version *)
 Variable genv : list byte -> option (list byte).
 Variable progname progver : list byte.
+(* the outside world: the output of a command, the regular files of a directory *)
+Variable exec_out : list byte -> exec_answer.
+Variable dir_list : list byte -> dir_answer.
 
 (* builtin_get: param NULL or more than two words -> NULL; value of word 1, else word 2, else NULL *)
 Definition builtin_get (param : option buf) (st : store) : res bres :=
@@ -292,17 +339,62 @@ Definition builtin_put (param : option buf) (st : store) : res store :=
 Definition appname_text : list byte :=
   firstn (appname_size - 1) (progname ++ 45 :: progver).
 
+(* builtin_exec: REQUIRE_RVAL(param); the command text is read (strlen, strcpy); the world runs it;
+   fsize = 0 -> NULL; Output = MALLOC(fsize + 1); fread; Output[fsize] = 0;
+   Output = spiftool_condense_whitespace(Output) *)
+Definition builtin_exec (param : option buf) : res bres :=
+  match param with
+  | None => Ok BNull
+  | Some pb =>
+    _ <- strlen pb ;;
+    match exec_out (take_str pb) with
+    | ExecNotFollowed => Ok (BExt Spawn)
+    | ExecRefused => Ok BNull
+    | ExecOut [] => Ok BNull
+    | ExecOut content =>
+      o <- condense_whitespace (bytes content ++ [Some 0]) ;;
+      _ <- strlen o ;;
+      Ok (BStr (take_str o))
+    end
+  end.
+
+(* builtin_dirscan: !param or not exactly one word -> NULL; dir = get_word(1, param);
+   opendir fails -> NULL; buff = MALLOC(CONFIG_BUFF); *buff = 0; n = CONFIG_BUFF; the loop; return buff *)
+Definition builtin_dirscan (param : option buf) : res bres :=
+  match param with
+  | None => Ok BNull
+  | Some pb =>
+    n <- num_words pb ;;
+    if negb (n =? 1) then Ok BNull
+    else
+      d <- get_word 1 pb ;;
+      match d with
+      | None => Fault Null_deref                            (* opendir(NULL) *)
+      | Some dir =>
+        match dir_list dir with
+        | DirNotFollowed => Ok (BExt Dirscan)
+        | DirFail => Ok BNull
+        | DirList names =>
+          b <- dirscan_loop names (Some 0 :: repeat None (CB - 1)) config_buff ;;
+          _ <- strlen b ;;
+          Ok (BStr (take_str b))
+        end
+      end
+  end.
+
 Definition call_builtin (code : Z) (param : option buf) (st : store) : res (bres * store) :=
   if code =? 0 then Ok (BStr appname_text, st)
   else if code =? 1 then Ok (BStr progver, st)
   else if code =? 4 then (r <- builtin_get param st ;; Ok (r, st))
   else if code =? 5 then (st' <- builtin_put param st ;; Ok (BNull, st'))
-  else
-    (* exec, random, dirscan: REQUIRE_RVAL(param) / !param -> NULL, otherwise the outside world *)
+  else if code =? 2 then (r <- builtin_exec param ;; Ok (r, st))
+  else if code =? 3 then
+    (* random: REQUIRE_RVAL(param) -> NULL, otherwise rand() decides: not followed *)
     match param with
     | None => Ok (BNull, st)
-    | Some _ => Ok (BExt (if code =? 2 then Spawn else if code =? 3 then Random else Dirscan), st)
-    end.
+    | Some _ => Ok (BExt Random, st)
+    end
+  else (r <- builtin_dirscan param ;; Ok (r, st)).
 
 (* ---------------------------------------------------------------------------------- *)
 (* the loop  for (j = 0; *pbuff && j < max; pbuff++, j++) switch ( *pbuff) { ... }       *)
@@ -427,4 +519,23 @@ Fixpoint getenv_of (env : list (list byte * list byte)) (name : list byte) : opt
     | _ => if is_prefix (name ++ [61]) (k ++ 61 :: v)
            then Some (skipn (S (length name)) (k ++ 61 :: v)) else getenv_of t name
     end
+  end.
+
+(* the outside world as the correspondence check sets it up: one output for every command (or
+   commands are not followed), refused when spiftool_temp_file cannot make its name fit its
+   256-byte buffer (tmp_ok = false) or when
+     maxlen = strlen(param) + strlen(OutFile) + 8 > CONFIG_BUFF      (spif_uint32_t maxlen);
+   directories given by name with the names of their regular files, any other directory fails to open *)
+Definition exec_world (tmp_ok : bool) (outfile_len : Z) (out : option (list byte)) (cmd : list byte) : exec_answer :=
+  match out with
+  | None => ExecNotFollowed
+  | Some content =>
+    if negb tmp_ok then ExecRefused
+    else if config_buff <? u32 (Z.of_nat (length cmd) + outfile_len + 8) then ExecRefused
+    else ExecOut content
+  end.
+Fixpoint dir_world (dirs : list (list byte * list (list byte))) (d : list byte) : dir_answer :=
+  match dirs with
+  | [] => DirFail
+  | (k, names) :: t => match strcmp k d with Eq => DirList names | _ => dir_world t d end
   end.
